@@ -36,6 +36,13 @@ func runC20(c *core.Ctx) {
 	for i := 0; i < st.NumFields(); i++ {
 		fields[st.Field(i).Name()] = st.Field(i)
 	}
+	var funcsMethods []*ssa.Function
+	for _, f := range pkgFuncs(c, ".") {
+		if f.Signature.Recv() != nil && structName(f.Signature.Recv().Type()) == "Funcs" {
+			funcsMethods = append(funcsMethods, f)
+		}
+	}
+	noPackageState(c, "C20.R4", "the function-table registry", funcsMethods)
 	ims := ifaceMethods(c)
 	if len(ims) == 0 {
 		c.Fail("C20.R0", "anchor/Interface.methods", 0, "Interface has no exported methods")
